@@ -503,15 +503,21 @@ func defaultRedirectTrailingSlashHandler(c Context) {
 		code = http.StatusPermanentRedirect
 	}
 
-	var url string
-	if len(req.URL.RawPath) > 0 {
-		url = FixTrailingSlash(req.URL.RawPath)
-	} else {
-		url = FixTrailingSlash(req.URL.Path)
+	// Always build the location from the escaped form of the path, so a reserved character in the last segment
+	// (e.g. '?', '#' or '%') is not given a new meaning by the client.
+	url := req.URL.RawPath
+	if len(url) == 0 {
+		url = req.URL.EscapedPath()
 	}
+	url = FixTrailingSlash(url)
 
 	if url[len(url)-1] == '/' {
-		localRedirect(c.Writer(), req, path.Base(url)+"/", code)
+		base := path.Base(url) + "/"
+		if strings.IndexByte(base, ':') >= 0 {
+			// A colon in the first segment of a relative reference would be parsed as a scheme.
+			base = "./" + base
+		}
+		localRedirect(c.Writer(), req, base, code)
 		return
 	}
 	localRedirect(c.Writer(), req, "../"+path.Base(url), code)
